@@ -1,4 +1,4 @@
-from props_common import TRUSTED_COMMON
+from props_common import GEN_STORE_TRUST, TRUSTED_COMMON
 
 STORE_RULE = ("programs = two or three arrays (int or long elements, D 0..4, sizes 0..5) in one guarded storage + views of EQUAL extents built from them with "
               "different layouts (sub-block offsets, stride factors, permuted storage order undone by rotated/transposed/unrotated, random walks of C01 "
@@ -29,9 +29,13 @@ def store_harness(name, modes, quick, thorough, flags=None):
 
 
 PROP = {
-    "lean_targets": ["MultiProofs.C05"],
+    "generators": [{"script": "gen_store.py"}],
+    "lean_targets": ["MultiProofs.C05", "MultiProofs.GenTieStore"],
     "lean_module": "MultiProofs.C05",
     "theorems": [
+        "Multi.GenTieStore.assignment_is_the_code",
+        "Multi.GenTieStore.SV_assign_same_tie",
+        "Multi.GenTieStore.SV_assign_copy_tie",
         "Multi.elemit_kth",
         "Multi.C05.assign_exact",
         "Multi.C05.assignT_exact",
@@ -48,7 +52,7 @@ PROP = {
         "Multi.C05.assign_exact_reachable",
     ],
     "harnesses": [store_harness("store", ["c05"], 16000, 640000), store_harness("store_tracked", ["c05"], 4800, 160000, ["-O0", "-DTRACKED"])],
-    "trusted_base": TRUSTED_COMMON + [
+    "trusted_base": TRUSTED_COMMON + GEN_STORE_TRUST + [
         "std::copy / copy_n / fill_n / swap_ranges are modelled by their contract over the library's iterators (counted loop: dereference, assign, ++); libstdc++ is not verified",
         "the driver mmdrv_store keeps the memory as a table between commands (a representation change of the function Mem)",
     ],
